@@ -87,6 +87,8 @@ def to_smt2(ob, lemma_names=(), extra=()):
     return s.to_smt2(), [n for n, _ in ax]
 
 
+COVER_MS = 12000
+
 Z3_STRATEGIES = (
     # (name, binary, options, share of the budget, accept `sat` as a refutation?)
     ('z3-5.1.0[ematch,arith2]', 'z3-new', ['smt.mbqi=false', 'smt.arith.solver=2'], 0.15, False),
@@ -219,7 +221,9 @@ def discharge(obligations, lemma_map=None, timeout_s=10, procs=None, fallback=Tr
         text, ax = to_smt2(ob, lem)
         texts.append((text, ax))
     hints = _load_hints()
-    jobs = [(t, int(timeout_s * 1000) if ob.kind == 'vc' else 3000, ob.expect == 'unsat', hints.get(_hint_key(ob.name)))
+    # covers (reachability / vacuity guards) look for `unsat` = contradictory context: they get a real budget, because an
+    # inconsistent context that is only found after a second or two would otherwise pass as "probably reachable"
+    jobs = [(t, int(timeout_s * 1000) if ob.kind == 'vc' else COVER_MS, ob.expect == 'unsat', hints.get(_hint_key(ob.name)))
             for (t, _), ob in zip(texts, obligations)]
     from multiprocessing.pool import ThreadPool
     with ThreadPool(procs) as pool:
